@@ -644,8 +644,15 @@ func (w *SrvWorld) afterServerClose() {
 		w.checkStreams()
 	}
 	for _, rc := range w.Real {
-		rs := rc.sock
-		w.lib("close-client", func() { _ = rs.Close() })
+		w.e2eMu.Lock()
+		rs, rt := rc.sock, rc.tconn
+		w.e2eMu.Unlock()
+		if rs != nil {
+			w.lib("close-client", func() { _ = rs.Close() })
+		}
+		if rt != nil {
+			w.lib("close-client", func() { _ = rt.Close() })
+		}
 	}
 	// close every harness-owned endpoint so that only library leaks remain
 	for _, p := range w.Peers {
